@@ -10,8 +10,8 @@ of the regenerated tables.
 import AutomataVerif.Proofs.Freeze
 import AutomataVerif.Model.Instance
 
-namespace AV.Obj
-open AV
+namespace AV.VA.Obj
+open AV AV.VA
 
 /-! ### generic list lemmas -/
 
@@ -289,4 +289,4 @@ theorem norm_fz (am : Bool) (v : PyVal) : (fz am v).norm = v.norm := by
   · simp [fz, PyVal.norm_freeze]
   · simp [fz]
 
-end AV.Obj
+end AV.VA.Obj
